@@ -421,7 +421,7 @@ func RndBundle(rng *rand.Rand, maxFeatures int) *Bundle {
 			}
 			t := Pick(rng, BundleTargets)
 			if single {
-				for t == "remoteDef" || t == "remoteChain" || t == "remoteRecursive" || t == "remoteCrossFileCycle" || t == "remoteSiblingCircular" {
+				for t == "remoteDef" || t == "remoteChain" || t == "remoteRecursive" || t == "remoteCrossFileCycle" || t == "remoteSiblingCircular" || t == "remoteSameNameDocs" {
 					t = Pick(rng, BundleTargets)
 				}
 			}
@@ -458,7 +458,7 @@ func RndBundle(rng *rand.Rand, maxFeatures int) *Bundle {
 
 // ---- collision matrix: name relation x imported schema kind x where the referrers are ----
 
-var CollisionRels = []string{"exact", "case", "threeWay"}
+var CollisionRels = []string{"exact", "case", "threeWay", "capitalised"}
 var CollisionSchemaKinds = []string{"object", "prim", "array", "map", "enum"}
 var CollisionReferrers = []string{"defAlias", "defProperty", "defItems", "defAllOf", "defAddProps", "opParam", "codeResponse", "defaultResponse", "sharedParam", "sharedResponse", "respItems", "respProperty"}
 
@@ -522,8 +522,12 @@ func (b *Bundle) CollisionX(rel, kind string, where []string, aliasUsed bool) {
 	k := strconv.Itoa(b.id())
 	local := "thing" + k
 	remote := local
-	if rel == "case" {
+	switch rel {
+	case "case":
 		remote = "Thing" + k
+	case "capitalised":
+		// same spelling on both sides, but not the one name mangling yields ("Thing1" is mangled to "thing1")
+		local, remote = "Thing"+k, "Thing"+k
 	}
 	b.Def(local, b.refFreeSchema(Pick(b.rng, CollisionSchemaKinds)))
 	if Chance(b.rng, 70) {
@@ -533,6 +537,15 @@ func (b *Bundle) CollisionX(rel, kind string, where []string, aliasUsed bool) {
 	b.AuxDef("sub/a.json", remote, b.refFreeSchema(kind))
 	ref := "sub/a.json#/definitions/" + remote
 	for _, w := range where {
+		if w == "remoteWrapper" {
+			// another definition of the same auxiliary document refers to the colliding one with a local $ref:
+			// the same remote definition is met again in a later import pass
+			wr := "wrapper" + k
+			b.AuxDef("sub/a.json", wr, jx.Obj{"type": "object", "description": b.lbl("rw"), "properties": jx.Obj{"l": jx.Obj{"$ref": "#/definitions/" + remote}}})
+			op := b.Op(b.newPath(), Pick(b.rng, MethodsAll), true)
+			jx.AsObj(op["responses"])["200"] = jx.Obj{"description": b.lbl("rw"), "schema": jx.Obj{"$ref": "sub/a.json#/definitions/" + wr}}
+			continue
+		}
 		if w == "remoteCyclicHolder" {
 			// the referrers sit inside a self-recursive definition of the same auxiliary document (imported as a whole)
 			node := "node" + k
@@ -551,7 +564,7 @@ func (b *Bundle) CollisionX(rel, kind string, where []string, aliasUsed bool) {
 		third := "THING" + k
 		b.AuxDef("other/c.json", third, b.refFreeSchema(kind))
 		for _, w := range where {
-			if w != "remoteCyclicHolder" {
+			if w != "remoteCyclicHolder" && w != "remoteWrapper" {
 				b.referFrom(w, "other/c.json#/definitions/"+third, aliasUsed)
 			}
 		}
@@ -569,6 +582,7 @@ func collisionWhereSets() [][]string {
 		{"defAllOf", "defaultResponse"}, {"defProperty", "defProperty"}, {"codeResponse", "opParam"}, {"defAddProps", "respItems"},
 		{"defAlias", "defItems", "codeResponse"}, {"defProperty", "respProperty", "sharedResponse"},
 		{"remoteCyclicHolder"}, {"remoteCyclicHolder", "codeResponse"}, {"defProperty", "remoteCyclicHolder"},
+		{"codeResponse", "remoteWrapper"}, {"remoteWrapper", "defProperty"}, {"remoteWrapper"},
 	}...)
 	return out
 }
